@@ -2,10 +2,10 @@ import subprocess, sys, os, json
 from concurrent.futures import ThreadPoolExecutor
 import numpy as np
 lo, hi, rec, n = int(sys.argv[1]), int(sys.argv[2]), sys.argv[3], 16
-env = dict(os.environ, PYTHONPATH='/repo', TF_CPP_MIN_LOG_LEVEL='3')
+REPO = os.environ.get('AEQ_REPO', '/repo'); env = dict(os.environ, PYTHONPATH=REPO, TF_CPP_MIN_LOG_LEVEL='3')
 def sh(i):
     a = lo + (hi - lo) * i // n; b = lo + (hi - lo) * (i + 1) // n
-    p = subprocess.run(['/venv/bin/python', '/verif/design_probes/srq_error_child.py', str(a), str(b), rec], capture_output=True, text=True, env=env, cwd='/repo')
+    p = subprocess.run(['/venv/bin/python', '/verif/design_probes/srq_error_child.py', str(a), str(b), rec], capture_output=True, text=True, env=env, cwd=REPO)
     if p.returncode: return []
     return json.loads(p.stdout.strip().splitlines()[-1])
 rows = []
@@ -16,6 +16,6 @@ steps, rel = a[:, 0], a[:, 1]
 for q in [50, 90, 99, 99.9, 100]: print('pct', q, 'err/step', np.percentile(steps, q), 'err/amax', np.percentile(rel, q))
 # combined bound residual: err - 3*scale - alpha*amax
 for alpha in [0.02, 0.05, 0.1, 0.2]:
-    res = a[:, 2] - 3 * a[:, 3] - alpha * a[:, 4]; print('alpha', alpha, 'violations', int((res > 0).sum()), [rows[i][:2] for i in np.argsort(-res)[:5] if res[i] > 0])
+    res = a[:, 2] - 16 * a[:, 3] - alpha * a[:, 4]; print('alpha', alpha, 'violations', int((res > 0).sum()), [rows[i][:2] for i in np.argsort(-res)[:5] if res[i] > 0])
 bad = [rows[i] for i in range(len(rows)) if rows[i][7] > 1e-3 and rows[i][8] == 0]
 print('constant-output cases', len(bad), bad[:5])
